@@ -153,6 +153,7 @@ macro_rules! visit_methods {
         visit_type_param_type_var generic_visit_type_param_type_var TypeParamTypeVar;
         visit_type_param_param_spec generic_visit_type_param_param_spec TypeParamParamSpec;
         visit_type_param_type_var_tuple generic_visit_type_param_type_var_tuple TypeParamTypeVarTuple;
+        visit_arg_with_default generic_visit_arg_with_default ArgWithDefault;
         }
     };
 }
